@@ -81,6 +81,16 @@ def behaviours():
     for name, v in [('str', 'text'), ('None', None), ('int', 3), ('float', 2.5), ('dict', {'a': 1}), ('list', []),
                     ('bytes', b'bytes'), ('object', object()), ('emptystr', '')]:
         out.append(('return:' + name, 'return', (lambda v=v: v), 'value'))
+    # appended last (round 14): messages Python allows but UTF-8 does not (unpaired surrogates - defect D20, repaired), and huge
+    # messages of multi-byte characters in every byte alignment (whatever shortens them must not cut a character in two)
+    for name, msg in [('surrogate', 'party \ud83d'), ('surrogate-only', '\udc00'), ('surrogate-markup', '<b>\ud800</b>{x}')]:
+        out.append(('raise:ValueError-' + name, 'raise', (lambda msg=msg: ValueError(msg)), 'uncaught'))
+    for kind in ('raise', 'return'):
+        out.append(('%s:Forbidden-detail-surrogate' % kind, kind, (lambda: errors.Forbidden('no \ud83d entry', is_breaking=True)), 403))
+    for pad in range(4):
+        for ch, cname in (('\u20ac', 'euro'), ('\u6f22', 'cjk'), ('\xe9', 'latin'), ('\U0001f600', 'emoji'), ('\U0001f600\u20ac\xe9', 'mixed')):
+            out.append(('raise:%s-huge-%s-pad%d' % (('RuntimeError', 'ValueError', 'KeyError', 'ZeroDivisionError')[pad], cname, pad), 'raise',
+                        (lambda pad=pad, ch=ch, cls=(RuntimeError, ValueError, KeyError, ZeroDivisionError)[pad]: cls('x' * pad + ch * 9000)), 'uncaught'))
     return out
 
 
